@@ -28,12 +28,17 @@ Judge(ev, enabled, fails, p) ==
 ---------------------------------------------------------------------------
 \* clauses evaluated on every event
 
-\* C01: every array in a target register is valid
-ValidFails(ev) ==
-  UNION { LET v == ev.regs[r] IN
+\* C01: every array in a target register is valid, provided the call was applied
+\* to valid arrays (the property speaks about operations "applied to valid arrays")
+InputsValid(ev, pre) ==
+  \A i \in 1..Len(ev.in) : LET v == pre[ev.in[i]] IN
+     (IsArray(v) => Valid(v)) /\ (IsVector(v) => ValidVector(v))
+ValidFails(ev, pre) ==
+  IF ev.op = "rel" \/ ~InputsValid(ev, pre) THEN {}
+  ELSE UNION { LET v == ev.regs[r] IN
           IF IsArray(v) THEN {"C01.valid." \o w : w \in ValidWhy(v)}
           ELSE IF IsVector(v) THEN F(ValidVector(v), "C01.valid.vector")
-          ELSE {} : r \in SeqRange(ev.out) }
+          ELSE {} : r \in Targets(ev) \cap DOMAIN ev.regs }
 
 \* C20: element types of results
 InDts(ev, pre) ==
@@ -347,6 +352,17 @@ UnfuseEv(ev, pre) ==
                                                   \cup F(Labels(r) = Labels(x), "C05.unfuse.labels") ELSE {}),
        "C05.unfuse")
 
+
+ReshapeEv(ev, pre) ==
+  LET x == Ins(ev, pre, 1)
+      ns == ev.args.newshape
+      en == Flag(ev.args, "back") \/ IsMergeDrop(ShapeOf(x), ns)
+  IN Judge(ev, en, LET r == Outs(ev, 1) IN
+       F(IsArray(r) /\ Valid(r), "C07.reshape.result_valid") \cup
+       (IF IsArray(r) /\ Valid(r) /\ AllExact(r) THEN ReshapeFails(x, ns, r, "C07.reshape")
+                                                  \cup F(Labels(r) = Labels(x), "C07.reshape.labels") ELSE {}),
+       "C07.reshape")
+
 ---------------------------------------------------------------------------
 \* relational pseudo-events: the driver names registers, the SPEC compares them
 \* args.clause names the clause, args.how the relation
@@ -428,13 +444,14 @@ OpFails(ev, pre) ==
   ELSE IF ev.op = "rel" THEN PseudoFails(ev, pre)
   ELSE IF ev.op = "fuse" THEN FuseEv(ev, pre)
   ELSE IF ev.op = "unfuse" THEN UnfuseEv(ev, pre)
+  ELSE IF ev.op = "reshape" THEN ReshapeEv(ev, pre)
   ELSE LET x == Ins(ev, pre, 1) IN
        IF IsArray(x) /\ ~IsFermi(x) THEN AbelianFails(ev, pre)
        ELSE IF IsArray(x) /\ IsFermi(x) THEN FermiFails(ev, pre)
        ELSE {}
 
 EventFails(ev, pre) ==
-  ValidFails(ev)
+  ValidFails(ev, pre)
   \cup FrameFails(pre, ev.regs, Targets(ev))
   \cup DtypeFails(ev, pre)
   \cup OpFails(ev, pre)
